@@ -3009,3 +3009,323 @@ func checkLeafCountMonotone(p *Program, r *Report, rule string, entryNames []str
 	}
 	r.Floor(rule, "block-application entries", n, len(entryNames))
 }
+
+// ---------------------------------------------------------------------------
+// GROW-BEFORE-STORE (R01g). Positions above row 0 depend on the allocated
+// height. In the single-leaf insertion of the map forest the growth step (the
+// call that may store TotalRows) must come before every write to the node
+// store and the leaf index: a leaf written first is relocated by the growth
+// step as if it were an interior node of the old layout.
+
+func checkGrowBeforeStore(p *Program, r *Report, rule string) {
+	grow := map[*ssa.Function]bool{}
+	for _, f := range p.Funcs {
+		if f.Parent() != nil || f.Signature.Recv() == nil || !p.localNamed(f.Signature.Recv().Type(), "MapPollard") {
+			continue
+		}
+		if rd, _ := hasStreamParam(f.Signature); rd {
+			continue
+		}
+		for _, b := range f.Blocks {
+			for _, in := range b.Instrs {
+				if _, ok := receiverFieldStore(f, in, "TotalRows"); ok {
+					grow[f] = true
+				}
+			}
+		}
+	}
+	n := 0
+	for _, g := range sortedFuncs(p, p.StaticReach(p.Func("(*MapPollard).Modify"))) {
+		if g == nil || g.Blocks == nil || grow[g] {
+			continue
+		}
+		var growCalls []*ssa.Call
+		for _, sc := range callsIn(p, g) {
+			if callee := sc.call.Common().StaticCallee(); callee != nil && grow[callee] {
+				growCalls = append(growCalls, sc.call)
+			}
+		}
+		if len(growCalls) == 0 {
+			continue
+		}
+		gc := growCalls[0]
+		n++
+		key := p.FuncName(g) + "/grow-before-store"
+		var bad ssa.Instruction
+		for _, b := range g.Blocks {
+			for _, in := range b.Instrs {
+				kind, method, _ := storeCall(p, in)
+				if kind == "" || method != "Put" {
+					continue
+				}
+				before := (gc.Block() == b && instrIndex(gc) < instrIndex(in)) || (gc.Block() != b && gc.Block().Dominates(b))
+				if !before && bad == nil {
+					bad = in
+				}
+			}
+		}
+		if bad != nil {
+			r.Violate(rule, key, posOf(p, bad), "the node store / leaf index is written before the growth step of this insertion has run: the entry is placed in the old layout and then relocated by the growth step as if it were an interior node", "in "+p.FuncName(g))
+		} else {
+			r.Discharge(rule, key, posOf(p, gc), "the growth step dominates every write to the node store and the leaf index in this function", true)
+		}
+	}
+	r.Floor(rule, "functions calling the growth step", n, 1)
+}
+
+// ---------------------------------------------------------------------------
+// FLAG-PER-POSITION (R09g). The keep flag stored with a node decides what the
+// partial forest holds on to. Inside a loop over positions it has to be
+// computed for each position: a flag that is a loop-carried variable (set for
+// one position and never reset) marks every later position too.
+
+func checkFlagPerPosition(p *Program, r *Report, rule string) {
+	n := 0
+	for _, g := range p.Funcs {
+		if g.Blocks == nil || g.Signature.Recv() == nil || !p.localNamed(g.Signature.Recv().Type(), "MapPollard") || g.Parent() != nil {
+			continue
+		}
+		ord := 0
+		for _, b := range g.Blocks {
+			for _, in := range b.Instrs {
+				kind, method, cc := storeCall(p, in)
+				if kind != "nodes" || method != "Put" || len(cc.Args) < 2 {
+					continue
+				}
+				h := innermostLoopHeader(b)
+				if h == nil {
+					continue
+				}
+				// the Remember field of the stored value
+				flag := leafFieldValue(cc.Args[1], "Remember")
+				if flag == nil {
+					continue
+				}
+				ord++
+				n++
+				key := fmt.Sprintf("%s/put#%d/flag", p.FuncName(g), ord)
+				var carried *ssa.Phi
+				flowsFrom(flag, func(v ssa.Value) bool {
+					ph, ok := v.(*ssa.Phi)
+					if !ok {
+						return false
+					}
+					// a phi in the header of a loop that contains the Put, fed from inside that loop
+					for hh := h; hh != nil; {
+						if ph.Block() == hh {
+							for i, pred := range hh.Preds {
+								if loopContains(hh, pred) && i < len(ph.Edges) {
+									if c, isConst := ph.Edges[i].(*ssa.Const); isConst && c.Value != nil {
+										continue
+									}
+									carried = ph
+									return true
+								}
+							}
+						}
+						// enclosing loop
+						var outer *ssa.BasicBlock
+						for _, cand := range g.Blocks {
+							if cand != hh && len(latches(cand)) > 0 && loopContains(cand, hh) && (outer == nil || loopContains(outer, cand)) {
+								outer = cand
+							}
+						}
+						hh = outer
+					}
+					return false
+				}, 0, map[ssa.Value]bool{})
+				if carried != nil {
+					r.Violate(rule, key, posOf(p, in), "the keep flag stored with this node is a loop-carried variable ("+carried.Comment+"): once set for one position it stays set for every later position of the loop, and pruning trusts it", "in "+p.FuncName(g))
+				} else {
+					r.Discharge(rule, key, posOf(p, in), "the keep flag is computed within the iteration that stores the node", true)
+				}
+			}
+		}
+	}
+	r.Floor(rule, "node-store writes inside loops of the map forest", n, 3)
+}
+
+// leafFieldValue: the value stored into the named field of the struct value v
+// (a load of a composite-literal cell), or nil.
+func leafFieldValue(v ssa.Value, field string) ssa.Value {
+	u, ok := v.(*ssa.UnOp)
+	if !ok {
+		return nil
+	}
+	al, ok := u.X.(*ssa.Alloc)
+	if !ok || al.Referrers() == nil {
+		return nil
+	}
+	var out ssa.Value
+	for _, ref := range *al.Referrers() {
+		fa, ok := ref.(*ssa.FieldAddr)
+		if !ok || fieldName(fa.X.Type(), fa.Field) != field || fa.Referrers() == nil {
+			continue
+		}
+		for _, r2 := range *fa.Referrers() {
+			if st, ok := r2.(*ssa.Store); ok && st.Addr == fa {
+				out = st.Val
+			}
+		}
+	}
+	return out
+}
+
+// ---------------------------------------------------------------------------
+// FULL-KEEPS-CREATED (R02f). A full pointer forest must be able to prove every
+// live leaf, so every node it creates while applying a block has to be marked
+// to be kept when the forest is full. (The flag is not serialized: a node
+// that is only kept because its twin happened to be remembered is lost after
+// a restore.)
+
+func checkFullKeepsCreated(p *Program, r *Report, rule string) {
+	e := p.Func("(*Pollard).Modify")
+	if e == nil {
+		r.MissingAnchor(rule, "(*Pollard).Modify", "block application of the pointer forest not found")
+		return
+	}
+	reach := p.StaticReach(e)
+	reach[e] = true
+	n := 0
+	for _, g := range sortedFuncs(p, reach) {
+		if g.Blocks == nil || g.Signature.Recv() == nil || !p.localNamed(g.Signature.Recv().Type(), "Pollard") {
+			continue
+		}
+		ord := 0
+		for _, b := range g.Blocks {
+			for _, in := range b.Instrs {
+				al, ok := in.(*ssa.Alloc)
+				if !ok || !al.Heap || !p.localNamed(al.Type().(*types.Pointer).Elem(), "polNode") {
+					continue
+				}
+				ord++
+				n++
+				key := fmt.Sprintf("%s/new-node#%d", p.FuncName(g), ord)
+				ok2 := false
+				for _, ref := range *al.Referrers() {
+					fa, isFA := ref.(*ssa.FieldAddr)
+					if !isFA || fieldName(fa.X.Type(), fa.Field) != "remember" || fa.Referrers() == nil {
+						continue
+					}
+					for _, r2 := range *fa.Referrers() {
+						st, isSt := r2.(*ssa.Store)
+						if !isSt || st.Addr != fa {
+							continue
+						}
+						fromFull := func(v ssa.Value) bool {
+							return flowsFrom(v, func(x ssa.Value) bool {
+								_, f, ok := fieldRead(x)
+								return ok && f == "full"
+							}, 0, map[ssa.Value]bool{})
+						}
+						if fromFull(st.Val) {
+							ok2 = true
+						}
+						if c, isConst := st.Val.(*ssa.Const); isConst && c.Value != nil && c.Value.String() == "true" {
+							for _, gd := range guardsAt(st.Block()) {
+								if gd.Truth && fromFull(gd.Cond) {
+									ok2 = true
+								}
+							}
+						}
+					}
+				}
+				if ok2 {
+					r.Discharge(rule, key, posOf(p, al), "the created node is marked to be kept when the forest is full", true)
+				} else {
+					r.Violate(rule, key, posOf(p, al), "a node created while a block is applied is not marked to be kept when the forest is full: it survives only while a remembered twin protects it, and is pruned - with the leaves below it unprovable - once that protection is gone (for instance after a restore, which does not carry the flags)", "in "+p.FuncName(g))
+				}
+			}
+		}
+	}
+	r.Floor(rule, "nodes created under the pointer forest's Modify", n, 2)
+}
+
+// ---------------------------------------------------------------------------
+// PRUNE-IN-PAIRS (R02g). A proof needs both children of a node or neither.
+// The function that forgets the nieces of a node must decide for the pair:
+// the condition under which one niece is dropped has to depend on the keep
+// flags of both.
+
+func checkPruneInPairs(p *Program, r *Report, rule string) {
+	fn := p.Func("(*polNode).prune")
+	if fn == nil {
+		r.MissingAnchor(rule, "(*polNode).prune", "niece pruning not found")
+		return
+	}
+	flagOf := func(v ssa.Value) string {
+		// load of <niece>.remember
+		u, ok := v.(*ssa.UnOp)
+		if !ok {
+			return ""
+		}
+		fa, ok := u.X.(*ssa.FieldAddr)
+		if !ok || fieldName(fa.X.Type(), fa.Field) != "remember" {
+			return ""
+		}
+		_, nf, ok := fieldRead(fa.X)
+		if !ok {
+			return ""
+		}
+		return nf
+	}
+	n := 0
+	for _, b := range fn.Blocks {
+		for _, in := range b.Instrs {
+			st, ok := in.(*ssa.Store)
+			if !ok {
+				continue
+			}
+			fa, ok := st.Addr.(*ssa.FieldAddr)
+			if !ok || !isNilConst(st.Val) {
+				continue
+			}
+			niece := fieldName(fa.X.Type(), fa.Field)
+			if niece != "lNiece" && niece != "rNiece" {
+				continue
+			}
+			n++
+			key := "(*polNode).prune/drop-" + niece
+			seen := map[string]bool{}
+			visited := map[ssa.Value]bool{}
+			var walk func(v ssa.Value, depth int)
+			walk = func(v ssa.Value, depth int) {
+				if v == nil || visited[v] || depth > 12 {
+					return
+				}
+				visited[v] = true
+				if f := flagOf(v); f != "" {
+					seen[f] = true
+					return
+				}
+				switch x := v.(type) {
+				case *ssa.Phi:
+					// a short-circuit || / && : the value also depends on the branch conditions that select the edge
+					for i, e := range x.Edges {
+						walk(e, depth+1)
+						if i < len(x.Block().Preds) {
+							pred := x.Block().Preds[i]
+							if iff, ok := pred.Instrs[len(pred.Instrs)-1].(*ssa.If); ok {
+								walk(iff.Cond, depth+1)
+							}
+						}
+					}
+				case *ssa.UnOp:
+					walk(x.X, depth+1)
+				case *ssa.BinOp:
+					walk(x.X, depth+1)
+					walk(x.Y, depth+1)
+				}
+			}
+			for _, gd := range guardsAt(b) {
+				walk(gd.Cond, 0)
+			}
+			if seen["lNiece"] && seen["rNiece"] {
+				r.Discharge(rule, key, posOf(p, in), "the niece is dropped under a condition on the keep flags of both nieces", true)
+			} else {
+				r.Violate(rule, key, posOf(p, in), "the niece is dropped under a condition that does not look at the keep flag of its sibling: a remembered leaf loses the sibling its proof needs (or is itself cut out next to an unflagged twin)", "in (*polNode).prune")
+			}
+		}
+	}
+	r.Floor(rule, "niece drops in prune", n, 2)
+}
